@@ -150,7 +150,7 @@ fn main() {
             }
         }
     }
-    let nrand = ctx.budget(400, 8000);
+    let nrand = ctx.cbudget(400, 8000);
     for _ in 0..nrand {
         if let Some(mut rng) = ctx.random_case() {
             let len = rng.range_usize(1, 90);
@@ -164,7 +164,7 @@ fn main() {
         }
     }
     // long monotone / plateau histories
-    let nlong = ctx.budget(4, 40);
+    let nlong = ctx.cbudget(4, 40);
     for _ in 0..nlong {
         if let Some(mut rng) = ctx.random_case() {
             let len = rng.range_usize(2000, if ctx.thorough() { 20000 } else { 6000 });
